@@ -1,5 +1,5 @@
 """C17 — contract execution is standard EVM semantics over the native account ledger."""
-import json, os
+import json, re, os
 import vcheck as V
 from props import common
 
@@ -55,7 +55,9 @@ def run(ctx):
     for m in (es.get("Mismatches") or []):
         prog = m.split("(")[1].split(")")[0] if "(" in m else "?"
         what = m.split("): ")[1].split(" ")[0:3] if "): " in m else ["?"]
-        key = "reference-evm-differs:%s:%s" % (prog, "-".join(what))
+        # the key names the kind of program and of difference, not the address it showed on
+        what = [w for w in what if not re.fullmatch(r"(0x)?[0-9a-fA-F]{6,}", w)]
+        key = "reference-evm-differs:%s:%s" % (prog.split(" ")[0], "-".join(what))
         if key in seen:
             continue
         seen.add(key)
